@@ -421,7 +421,7 @@ class Arc2D(object):
             v = Vector2D(point.x - self.c.x, point.y - self.c.y)
             a = Vector2D(1, 0).angle_counterclockwise(v)
             return (not self.is_inverted and self.a1 < a < self.a2) or \
-                (self.is_inverted and self.a1 > a > self.a2)
+                (self.is_inverted and (a > self.a1 or a < self.a2))
 
     def _a_from_pt(self, point):
         """Get the angle along the arc given a point along the arc."""
